@@ -27,8 +27,8 @@ CLAIMS = {
         note=TRUST + "NOT decided: that every returned voxel is touched by the segment and that the chain has no gaps - these depend on the float midpoint recursion (middleSpatialIds), which is only assumed to terminate and to emit IDs through its callback (emit idiom).",
         tech="deductive verification of the wrapper (WP VCs over go/ssa, callback modelled as an unknown emitted sequence appended to the captured slice, SMT)", ref="4 C06"),
     "C14": dict(category="other",
-        text="PARTIAL. Proved for GetExtendedSpatialIdsWithinRadiusOfLine and FitClearanceAroundExtendedSpatialID: nil points, zooms outside 0..35, negative radius / clearance and malformed IDs are errors; no panic in the repository code; reported layer counts are non-negative; the corridor result is duplicate-free; the layer fit uses the start point's own ID (order-determinism obligations of C16, after the repair recorded in known_findings.txt).",
-        note=TRUST + "NOT decided: containment of the line's IDs, the radius-0 identity, the distance bound and the subset relation between the two modes (third-party convex-distance and geodesy code, assumed total). Verified for layer counts up to 1024.",
+        text="PARTIAL. Proved for GetExtendedSpatialIdsWithinRadiusOfLine and FitClearanceAroundExtendedSpatialID: nil points, zooms outside 0..35, negative radius / clearance and malformed IDs are errors; no panic in the repository code; reported layer counts are non-negative; the corridor result is duplicate-free and contains every ID that the line query returned for the same arguments (postcondition over the result of that call in the body, proved from the set-level contracts of Union and Unique); the layer fit uses the start point's own ID (order-determinism obligations of C16, after the repair recorded in known_findings.txt).",
+        note=TRUST + "NOT decided: the radius-0 identity, the distance bound and the subset relation between the two modes (third-party convex-distance and geodesy code, assumed total). Verified for layer counts up to 1024.",
         tech="deductive verification of error and duplicate clauses (WP VCs over go/ssa, SMT) with third-party code abstracted", ref="4 C14"),
     "C11": dict(
         text="PARTIAL (kernels and error behaviour). Proved: convertHorizontalIDToQuadkey returns the bit interleave of (x, y) for every zoom 1..31 (closed-form specification, zoom x loop-index case split); convertQuadkeyToHorizontalID de-interleaves every key 0 <= q < 4^zoom for every zoom and every digit count, including keys with leading zero digits (loop invariant over opaque bit symbols, with the digit/bit lemmas proved separately and instantiated); the two are mutually inverse (bijection lemma, thorough tier); the list-level conversions reject zooms outside 1..31 / 0..35, malformed IDs and inverted height ranges, do not panic, and the keys-to-IDs direction returns a duplicate-free list of five-field IDs.",
